@@ -73,6 +73,49 @@ static void password_sweep(struct res *r) {
         if (memcmp(st, exp, 32)) res_viol(r, "c12:crypt-refusing-allocator", "pw", "polyseed_crypt with a refusing allocator did not apply the password operation (password #%u)", k); else { r->validated++; r->cls[0]++; } } }
     res_sample(r, "passwords a..a<accented>b..b of 2..65 bytes with the accented character at every offset, composed and decomposed");
 }
+/* one password -> the KDF must receive exactly `want` (wl bytes) */
+static int pw_exact(const char *pw, const char *want, size_t wl, struct res *r, const char *key, const char *what) {
+    polyseed_data *s = seed_from_ref(&SEC[2]); r->calls++;
+    env_clear_log(); polyseed_crypt(s, pw); r->calls++; r->cases++;
+    int bad = (E.n_kdf != 1 || E.kdf.pwlen != wl || memcmp(E.kdf.pw, want, wl < sizeof E.kdf.pw ? wl : sizeof E.kdf.pw));
+    polyseed_free(s);
+    if (bad) { char rep[900], hx[800]; size_t pl = strlen(pw); hex(pw, pl > 390 ? 390 : pl, hx); snprintf(rep, sizeof rep, "pwx %s", hx);
+        size_t d = 0; while (d < wl && d < E.kdf.pwlen && E.kdf.pw[d] == (uint8_t)want[d]) d++;
+        res_viol(r, key, rep, "%s: the KDF was called %lu times with a password of %zu bytes; NFKD(password) has %zu bytes; first difference at byte %zu (got 0x%02x, expected 0x%02x)", what, E.n_kdf, E.kdf.pwlen, wl, d, d < E.kdf.pwlen ? E.kdf.pw[d] : 0, d < wl ? (uint8_t)want[d] : 0); return 1; }
+    r->validated++; r->cls[0]++; return 0;
+}
+/* every ASCII byte (control characters included) alone, embedded, and every ordered pair: ASCII is its own NFKD */
+static void password_alphabet(struct res *r) {
+    char pw[8];
+    for (int b = 1; b < 128; b++) {
+        pw[0] = (char)b; pw[1] = 0; pw_exact(pw, pw, 1, r, "c12:password-bytes", "one-byte password");
+        pw[0] = 'x'; pw[1] = (char)b; pw[2] = 'y'; pw[3] = 0; pw_exact(pw, pw, 3, r, "c12:password-bytes", "ASCII byte between two letters");
+        for (int c = 1; c < 128; c++) { pw[0] = (char)b; pw[1] = (char)c; pw[2] = 0; if (pw_exact(pw, pw, 2, r, "c12:password-bytes", "two-byte ASCII password")) break; }
+    }
+    /* the same bytes next to a non-ASCII character (the normaliser is consulted) */
+    for (int b = 1; b < 128; b++) { char q[16]; snprintf(q, sizeof q, "%c\xC3\xA9%c", b, b); char nf[32]; size_t nl = u_nfkd(q, nf, sizeof nf - 1); pw_exact(q, nf, nl, r, "c12:password-bytes", "ASCII byte around a non-ASCII character"); }
+    res_sample(r, "all 127 one-byte and 16129 two-byte ASCII passwords, control characters included");
+}
+/* passwords whose normal form is as long as the phrase buffer allows, one byte less, one byte more: p ASCII bytes + n accented letters,
+ * both spellings; what the KDF receives is what the injected normaliser delivers (it fills at most sizeof(polyseed_str)-1 bytes) */
+static void password_capacity(struct res *r) {
+    static const char *C_[2] = { "\xC3\xA9", "\xEA\xB0\x81" }; static const char *D_[2] = { "e\xCC\x81", "\xE1\x84\x80\xE1\x85\xA1\xE1\x86\xA8" };
+    for (int kind = 0; kind < 2; kind++) { size_t dl = strlen(D_[kind]);
+        for (int p = 0; p < (int)dl + 1; p++) for (int n = (int)((CAP - 12) / dl); (size_t)p + (size_t)n * dl <= CAP + dl; n++) {
+            char comp[2048], deco[2048], nf[2048]; size_t a = 0, b = 0;
+            for (int i = 0; i < p; i++) { comp[a++] = 'k'; deco[b++] = 'k'; }
+            for (int i = 0; i < n; i++) { memcpy(comp + a, C_[kind], strlen(C_[kind])); a += strlen(C_[kind]); memcpy(deco + b, D_[kind], dl); b += dl; }
+            comp[a] = 0; deco[b] = 0;
+            size_t nl = u_nfkd(comp, nf, CAP);
+            char what[120]; snprintf(what, sizeof what, "password with a normal form of %zu bytes (phrase buffer holds %zu), composed spelling", b, (size_t)CAP);
+            pw_exact(comp, nf, nl, r, "c12:password-capacity", what);
+            nl = u_nfkd(deco, nf, CAP); snprintf(what, sizeof what, "password with a normal form of %zu bytes (phrase buffer holds %zu), decomposed spelling", b, (size_t)CAP);
+            pw_exact(deco, nf, nl, r, "c12:password-capacity", what);
+        } }
+    /* long ASCII passwords around the same sizes pass through unchanged up to the capacity */
+    for (size_t L = CAP - 3; L <= CAP; L++) { char pw[1024]; memset(pw, 'q', L); pw[L] = 0; pw_exact(pw, pw, L, r, "c12:password-capacity", "ASCII password at the capacity of the phrase buffer"); }
+    res_sample(r, "normal forms of 531..546 bytes in both spellings");
+}
 
 int main(int argc, char **argv) {
     int a = common_args(argc, argv);
@@ -80,6 +123,7 @@ int main(int argc, char **argv) {
     struct res *r = calloc(1, sizeof *r);
     memset(&SEC[0], 0, sizeof(rseed)); memset(SEC[1].secret, 0xFF, 19); SEC[1].secret[18] = 0x3F; SEC[1].birthday = 1023; SEC[1].features = 7;
     for (int i = 0; i < 19; i++) SEC[2].secret[i] = (uint8_t)(0xA5 ^ (i * 13)); SEC[2].secret[18] &= 0x3F; SEC[2].birthday = 600; SEC[2].features = 16 | 2;
+    if (a < argc && !strcmp(argv[a], "pwx")) { password_alphabet(r); password_capacity(r); for (int i = 0; i < r->nviol && i < 3; i++) printf("REPRODUCED %s: %s\n", r->v[i].key, r->v[i].msg); return r->nviol ? 1 : 0; }
     if (a < argc && !strcmp(argv[a], "pw")) { password_sweep(r); for (int i = 0; i < r->nviol; i++) printf("REPRODUCED %s: %s\n", r->v[i].key, r->v[i].msg); return r->nviol ? 1 : 0; }
     if (a < argc && !strcmp(argv[a], "case")) {
         rseed s; parse_rseed(argv[a + 1], atoi(argv[a + 2]), atoi(argv[a + 3]), &s); uint8_t m[32]; unhexn(argv[a + 4], m, 32);
@@ -90,5 +134,7 @@ int main(int argc, char **argv) {
     memset(r, 0, sizeof *r); par_run(64L * 256, work_b, NULL, r); out_part("byte 18: all 64 secret values x all 256 mask values", r, CLS, "the 150-bit truncation corner");
     memset(r, 0, sizeof *r); par_run(24L * 24, work_c, NULL, r); out_part("all pairs of single mask bits in bytes 17-19 x 3 secrets", r, CLS, "");
     memset(r, 0, sizeof *r); password_sweep(r); out_part("passwords with a non-ASCII character at every offset, both spellings", r, CLS, "");
+    memset(r, 0, sizeof *r); password_alphabet(r); out_part("every ASCII byte and ordered pair of ASCII bytes as a password", r, CLS, "the KDF must receive the bytes unchanged");
+    memset(r, 0, sizeof *r); password_capacity(r); out_part("passwords whose normal form is at, just below and just above the phrase-buffer capacity", r, CLS, "");
     out_end(); return 0;
 }
